@@ -1,5 +1,5 @@
-(* C16 specification side of server-name resolution (Matrix server-server API, "Resolving
-   server names"), as a decision table in relational form, written from the specification text
+(* C16 specification side of server-name resolution (Matrix server-server API, section Resolving
+   server names), as a decision table in relational form, written from the specification text
    and not from the structure of resolve.go.  The oracles are those of Net/Resolve.v.
 
    Shape of a name (the syntax analysis itself is the business of C17; here the table is
@@ -70,7 +70,7 @@ Inductive resolves (wk : bytes -> option bytes) (srv : bytes -> bytes -> srv_out
 | R_literal_or_port : forall o,
     ~ wants_well_known name -> direct srv name o -> resolves wk srv name o.
 
-(* SRV targets as a resolver returns them are never empty (root is ".") *)
+(* SRV targets as a resolver returns them are never empty (the root is a single dot) *)
 Definition srv_sane (srv : bytes -> bytes -> srv_outcome) : Prop :=
   forall s n recs, srv s n = SrvOk recs -> Forall (fun rc => fst rc <> []) recs.
 
